@@ -26,6 +26,13 @@ Theorem C14_untie_eq_registry : ∀ Cf Cl, untie Cf = untie Cl → c_name Cf = c
 Proof. exact untie_eq_registry. Qed.
 Print Assumptions C14_untie_eq_registry.
 
+(* one clause of the full statement, proved for ALL ASTs (inside or outside the subset): whenever both readers succeed they
+   return the same module name and the same blackbox instances (definitions unambiguous) *)
+Theorem C14_registry_agree_partial : ∀ a bbs Cf Cl, NoDup (bb_name <$> bbs) → fast_sem a bbs = Ok Cf → full_sem a bbs = Ok Cl →
+  c_name Cf = c_name Cl ∧ c_bbs Cf = c_bbs Cl.
+Proof. exact registry_agree. Qed.
+Print Assumptions C14_registry_agree_partial.
+
 (* the constant nodes of the fast reader never take the name of an identifier of the netlist (any text, any identifier set) *)
 Theorem C14_fast_tie_fresh : ∀ (reserved : gset string) base, tie_name reserved base ∉ reserved.
 Proof. exact tie_name_fresh. Qed.
